@@ -268,16 +268,6 @@ def _asbip_kwargs(kw):
     return {m[k]: v for k, v in kw.items()}
 
 
-def _asbip_flags(kw):
-    """what _as_bipartite(H, **kw) must build: its own defaults (integer ids!), roles, isolated species, no ids, no mol"""
-    return bflags(sp=kw.get("sp", "S:"), rp=kw.get("rp", "R:"), bv=(0, 1), st=kw.get("st", True), ro=True, iso=True,
-                  int_=kw.get("int", True), eid=False, mol=False)
-
-
-def _backend_flags(int_, st):
-    return bflags(sp=None, rp=None, bv=(0, 1), st=st, ro=True, iso=True, int_=int_, eid=False, mol=False)
-
-
 def _items_input(form, items):
     """the (line, rule) items in the input form asked for; returns (positional argument, extra kwargs, effective items)"""
     if form == "mapping":
@@ -437,11 +427,13 @@ def _view(v):
         return "VItems %s %s %s %s" % (clist([cpair(cs(line), copt(None if r is None else cs(r))) for line, r in eff]),
                                        cs(dr), cbool(ps), cbool(pf))
     if k == "asbip":
-        return _view(["bip", _asbip_flags(v[1]), False, False])
+        kw = v[1]
+        return "VAsBip %s %s %s %s" % (copt(cs(kw["sp"]) if "sp" in kw else None), copt(cs(kw["rp"]) if "rp" in kw else None),
+                                       copt(cbool(kw["int"]) if "int" in kw else None), copt(cbool(kw["st"]) if "st" in kw else None))
     if k == "assg":
         return "VSgX false"
     if k == "backend":
-        return _view(["bip", _backend_flags(v[2], v[3]), False, False]) if v[1] else "VSgX false"
+        return "VBackend %s %s %s" % (cbool(v[1]), cbool(v[2]), cbool(v[3]))
     raise AssertionError(k)
 
 
